@@ -83,6 +83,21 @@ MUST_REACH = [
 ]
 
 KNOWN_GREEDY = "C06:unroll-greedy-earliest-reorders-conflicting-ops"
+# mechanisms of findings observed on the unchanged tree; each is assigned only when an explained-by test holds
+K_DD_IGNORED = "C06:dynamical-decoupling-merges-pulled-pauli-into-ignored-op"
+K_DD_CRASH = "C06:dynamical-decoupling-crashes-on-stabilizer-op-that-cannot-act-on-a-tableau"
+K_SORT_CRASH = "C06:insertion-sort-crashes-on-tagged-op(TaggedOperation._commutes_-drops-default)"
+K_KEY_ORDER = "C06:repeated-key-instance-order:"   # + transformer name
+K_EJECTZ_SYM = "C06:eject_z-crashes-on-parameterized-iswap-or-fsim(_is_swaplike-rounds-a-sympy-expression)"
+K_DEPHASE_KEYS = "C06:dephase_measurements-output-cannot-be-simulated(repeated-key-becomes-repeated-channel-record)"
+K_SQRT_CZ = "C06:sqrt-cz-gauge-picks-S-vs-S^-1-by-exact-equality(gateset-accepts-shifted-or-approximate-sqrt-cz)"
+EXCEPTION_MECHANISMS = [
+    # (transformer, exception type, message pattern, traceback pattern, mechanism key)
+    ("add_dynamical_decoupling", TypeError, r"Failed to act action on state argument", r"pauli_string\.py.*in after", K_DD_CRASH),
+    ("eject_z", TypeError, r".", r"in _is_swaplike", K_EJECTZ_SYM),
+    ("drop_diagonal_before_measurement", TypeError, r".", r"in _is_swaplike", K_EJECTZ_SYM),
+    ("insertion_sort_transformer", TypeError, r"Failed to determine whether or not", r"raw_types\.py.*in _commutes_", K_SORT_CRASH),
+]
 TOL = 1e-6
 IG, OT = X.IGNORE, X.OTHER
 CREATED_TAG_PREFIXES = ("<mapped", "Merged", "_merged", "c06-")
@@ -127,6 +142,7 @@ class Entry:
         self.name, self.rel, self.fn, self.kwsets = name, rel, fn, kwsets or [("default", {})]
         self.tags, self.deep, self.on, self.rejects, self.flattens = tags, deep, on, tuple(rejects), flattens
         self.atol_kw, self.note = atol_kw, note
+        self.whole_ops = False
 
     def tol(self, kw, nops):
         a = kw.get(self.atol_kw)
@@ -137,7 +153,34 @@ class Entry:
 
 def _ignored_ops(circuit, deep):
     ops = LW.all_ops_deep(circuit) if deep else circuit.all_operations()
-    return [op for op in ops if IG in op.tags]
+    # zero-qubit (global phase) operations are outside every relation ("up to global phase")
+    return [op for op in ops if IG in op.tags and op.qubits]
+
+
+def _dd_merged_pauli(circ_in, out, missing):
+    """explained-by test: every missing ignored operation is a 1-qubit operation whose slot (same moment, same qubit) in
+    the output holds that operation multiplied by a Pauli (up to global phase) - the pulled-through Pauli was merged in"""
+    import cirq
+
+    paulis = [np.array([[0, 1], [1, 0]], dtype=complex), np.array([[0, -1j], [1j, 0]]), np.diag([1.0 + 0j, -1])]
+    if len(out) != len(circ_in):
+        return False
+    for op in missing:
+        if len(op.qubits) != 1 or not cirq.has_unitary(op):
+            return False
+        slots = [i for i, m in enumerate(circ_in.moments) if any(o == op and tuple(o.tags) == tuple(op.tags) for o in m.operations)]
+        u = cirq.unitary(op)
+        hit = False
+        for i in slots:
+            o2 = out[i].operation_at(op.qubits[0])
+            if o2 is None or not cirq.has_unitary(o2):
+                continue
+            u2 = cirq.unitary(o2)
+            if any(L.phase_equal(u2, u @ pm, 1e-6) or L.phase_equal(u2, pm @ u, 1e-6) for pm in paulis):
+                hit = True
+        if not hit:
+            return False
+    return True
 
 
 def _check_ignored(ctx, name, circ_in, out, deep, wit):
@@ -153,7 +196,10 @@ def _check_ignored(ctx, name, circ_in, out, deep, wit):
                 break
         else:
             missing.append(op)
-    ctx.check(not missing, "ignored-ops-untouched", "C06:ignored-op-touched:" + name,
+    mech = "C06:ignored-op-touched:" + name
+    if missing and name == "add_dynamical_decoupling" and _dd_merged_pauli(circ_in, out, missing):
+        mech = K_DD_IGNORED
+    ctx.check(not missing, "ignored-ops-untouched", mech,
               lambda: "operation(s) tagged with a tag in tags_to_ignore are not in the output unchanged: %r" % (missing[:3],),
               missing=[repr(m) for m in missing[:4]], output=repr(out)[:3000], **wit)
 
@@ -202,7 +248,12 @@ def call(ctx, ent, circ_in, variant, kw, wit, fn=None, extra_rejects=()):
         if who != "repo":
             raise
         ctx.ok("no-undocumented-exception")
-        ctx.fail("C06:exception:%s:%s@%s" % (name, type(e).__name__, where), msg,
+        tb_txt = "".join(traceback.format_exception(type(e), e, e.__traceback__))
+        mech = "C06:exception:%s:%s@%s" % (name, type(e).__name__, where)
+        for nm, exc_t, pat_msg, pat_tb, key in EXCEPTION_MECHANISMS:
+            if nm == name and isinstance(e, exc_t) and re.search(pat_msg, str(e), re.S) and re.search(pat_tb, tb_txt, re.S):
+                mech = key
+        ctx.fail(mech, msg,
                  traceback="".join(traceback.format_exception(type(e), e, e.__traceback__))[-1500:], **wit)
         return None
     ctx.ok("no-undocumented-exception")
@@ -216,7 +267,7 @@ def call(ctx, ent, circ_in, variant, kw, wit, fn=None, extra_rejects=()):
         return None
     w2 = wit
     if "tags" in variant and ent.tags:
-        _check_ignored(ctx, name, circ_in, out, deep=("deep" in variant and not ent.flattens), wit=w2)
+        _check_ignored(ctx, name, circ_in, out, deep=("deep" in variant and not ent.flattens and not ent.whole_ops), wit=w2)
     if "deep" not in variant and ent.deep != "always" and not ent.flattens:
         _check_subcircuits(ctx, name, circ_in, out, w2)
     return res
@@ -260,6 +311,14 @@ def _explored(case, out, what):
     return cache[key]
 
 
+def _sorted_instances(dist):
+    out = {}
+    for rec, p in dist.items():
+        k = tuple((key, tuple(sorted(inst))) for key, inst in rec)
+        out[k] = out.get(k, 0.0) + p
+    return out
+
+
 def judge_distribution(ctx, case, name, out, wit, mech=None, want=None):
     want = case["dist"] if want is None else want
     try:
@@ -274,6 +333,9 @@ def judge_distribution(ctx, case, name, out, wit, mech=None, want=None):
         ctx.event("explorer-over-budget")
         return None
     tv = L.tv_distance(got, want)
+    if tv > 1e-6 and mech is None and L.tv_distance(_sorted_instances(got), _sorted_instances(want)) <= 1e-6:
+        # explained-by: only the order of the instances recorded under a repeated key differs
+        mech = K_KEY_ORDER + name
     return ctx.check(tv <= 1e-6 and abs(total - 1) < 1e-6, "distribution-preserved", mech or "C06:distribution-changed:" + name,
                      lambda: "exact record distribution of the output differs from the input program's by TV %.3g" % tv,
                      got={str(k): v for k, v in sorted(got.items(), key=lambda kv: -kv[1])[:8]},
@@ -285,6 +347,11 @@ def judge_state(ctx, case, name, out, wit, mech=None, want=None, dm=False):
     try:
         rho, over = _explored(case, out, "rho-dm" if dm else "rho")
     except ValueError as e:
+        if "already logged to key" in str(e):
+            # the simulators refuse the produced circuit: a key carries both/two channel-style and measurement-style records
+            ctx.check(False, "average-state-preserved", K_DEPHASE_KEYS if name == "dephase_measurements" else "C06:output-not-simulable:" + name,
+                      "the output circuit cannot be simulated: %s" % e, output=repr(out)[:3000], **wit)
+            return False
         if "missing when testing classical control" not in str(e) and "Measurement key" not in str(e):
             raise
         ctx.check(False, "average-state-preserved", mech or "C06:control-before-measurement:" + name, str(e), output=repr(out)[:3000], **wit)
@@ -347,7 +414,7 @@ def build_registry():
         ("default", {}), ("gate-types", {"categories": [cirq.ZPowGate, cirq.CZPowGate]}),
         ("predicates", {"categories": [one_q, two_q]}), ("gate+measure", {"categories": [cirq.X, cirq.MeasurementGate, cirq.CZ]}),
         ("op-type", {"categories": [cirq.CircuitOperation, cirq.ClassicallyControlledOperation]})])
-    add("expand_composite", "U", T.expand_composite, atol_kw=None, kwsets=[
+    add("expand_composite", "U", T.expand_composite, atol_kw=None, flattens=True, kwsets=[
         ("default", {}), ("keep-1q", {"no_decomp": one_q}), ("keep-upto-2q", {"no_decomp": lambda op: len(op.qubits) <= 2})])
     add("eject_z", "U", T.eject_z, kwsets=[("default", {}), ("atol=1e-8", {"atol": 1e-8}), ("atol=1e-7", {"atol": 1e-7})])
     add("eject_phased_paulis", "U", T.eject_phased_paulis, kwsets=[("default", {}), ("atol=1e-7", {"atol": 1e-7})])
@@ -360,11 +427,16 @@ def build_registry():
     add("merge_k_qubit_unitaries", "U", T.merge_k_qubit_unitaries, atol_kw=None, kwsets=[
         ("k=1", {"k": 1}), ("k=2", {"k": 2}), ("k=3", {"k": 3}),
         ("k=2,rewriter=unroll", {"k": 2, "rewriter": lambda cop: list(cop.mapped_circuit(deep=True).all_operations())}),
-        ("k=1,rewriter=keep", {"k": 1, "rewriter": lambda cop: cop})],
+        ("k=1,rewriter=keep", {"k": 1, "rewriter": lambda cop: cop.with_tags("c06-kept")})],
         rejects=[(ValueError, r"k should be greater than or equal to 1")])
+    # these treat a whole (unitary / negligible) CircuitOperation as one operation: nested ignored operations are only
+    # required to survive together with their enclosing operation -> the ignored-op check looks at the top level
+    for nm in ("merge_k_qubit_unitaries", "merge_single_qubit_gates_to_phased_x_and_z", "merge_single_qubit_gates_to_phxz"):
+        R[nm].whole_ops = True
     add("drop_empty_moments", "U", T.drop_empty_moments, atol_kw=None)
     add("drop_negligible_operations", "U", T.drop_negligible_operations,
         kwsets=[("default", {}), ("atol=1e-7", {"atol": 1e-7}), ("atol=1e-6", {"atol": 1e-6})])
+    R["drop_negligible_operations"].whole_ops = True
     add("synchronize_terminal_measurements", "U", T.synchronize_terminal_measurements, atol_kw=None,
         kwsets=[("default", {}), ("after_other_operations=False", {"after_other_operations": False})])
     add("insertion_sort_transformer", "U", T.insertion_sort_transformer, atol_kw=None, tags=False)
@@ -778,6 +850,35 @@ def _resolve_all(ctx, out, sweep):
     return [cirq.resolve_parameters(out, r) for r in rs]
 
 
+def _sqrt_cz_mech(case, name, circ, variant, rerun):
+    """explained-by test for the sqrt-CZ gauge finding: with every CZPowGate that the target gateset accepts as sqrt-CZ
+    but that is not *exactly* CZ**0.5 (global shift, 0.5 +- 1e-9) replaced by the exact gate, the same call (same seed)
+    satisfies the relation.  Returns the mechanism key or None (= default key)."""
+    import cirq
+
+    if name != "SqrtCZGaugeTransformer":
+        return None
+    try:
+        got = LW.lower_unitary_embed(rerun(circ), case["qubits"])
+        if L.phase_diff(got, case["U"]) <= TOL:
+            return None
+        touched = [0]
+
+        def fix(op):
+            g = op.gate
+            if isinstance(g, cirq.CZPowGate) and not cirq.is_parameterized(g) and abs(g.exponent - 0.5) < 1e-6 and g != cirq.CZ ** 0.5:
+                touched[0] += 1
+                return (cirq.CZ ** 0.5).on(*op.qubits).with_tags(*op.tags)
+            return op
+
+        c2 = cirq.Circuit([cirq.Moment([fix(op) for op in m.operations]) for m in circ.moments])
+        if touched[0] and L.phase_diff(LW.lower_unitary_embed(rerun(c2), case["qubits"]), case["U"]) <= 1e-5:
+            return K_SQRT_CZ
+    except Exception:  # noqa
+        return None
+    return None
+
+
 def sec_gauge(ctx, rng, case_no):
     import cirq
 
@@ -800,7 +901,8 @@ def sec_gauge(ctx, rng, case_no):
             out = call(ctx, ent, circ, variant, {}, wit, fn=fn)
             if out is None:
                 continue
-            judge_unitary(ctx, case, name, out, TOL, dict(wit, context=variant), monitor="gauge-unitary-preserved")
+            judge_unitary(ctx, case, name, out, TOL, dict(wit, context=variant), monitor="gauge-unitary-preserved",
+                          mech=_sqrt_cz_mech(case, name, circ, variant, lambda c: fn(c, _tctx(variant))))
             changed[0] += out != circ
         # as_sweep: every resolved instance implements the input
         seed = int(rng.integers(1 << 30))
@@ -819,7 +921,8 @@ def sec_gauge(ctx, rng, case_no):
                 ctx.check(False, "sweep-unitary-preserved", "C06:as_sweep-unresolved-symbols:" + name, "symbols left: %r" % sorted(cirq.parameter_names(rc)), **wit)
                 continue
             judge_unitary(ctx, case, name, rc, TOL, dict(wit, context=variant, sweep_index=i), monitor="sweep-unitary-preserved",
-                          mech="C06:as_sweep-unitary-changed:" + name)
+                          mech=_sqrt_cz_mech(case, name, circ, variant, lambda c: _resolve_all(ctx, *fn(c, _tctx(variant)))[i])
+                          or "C06:as_sweep-unitary-changed:" + name)
     # IdleMomentsGauge
     ent = reg["IdleMomentsGauge"]
     for k in range(3):
@@ -1146,10 +1249,438 @@ def _unroll(ctx, rng, case, un, kw, label):
     ctx.check(ok, mon, mech, "the unrolled circuit does not mean what the input means", output=repr(res)[:3000], **wit)
 
 
+
+# ------------------------------------------------------------------ section: parameterized circuits and sweeps
+SYM_1Q = ("XPow", "YPow", "ZPow", "HPow", "PhasedXPow")
+SYM_2Q = ("CZPow", "ZZPow", "ISwapPow")
+
+
+def _sym_program(rng, n, nsteps, npoints):
+    """unitary program where some exponents are symbols; returns (items, {symbol: [values]})"""
+    items = X.gen_unitary(rng, n, nsteps, arity_w=(0.0, 0.6, 0.4, 0.0))
+    values = {}
+    for it in items:
+        if it["spec"] in SYM_1Q and rng.random() < 0.45 or it["spec"] in SYM_2Q and rng.random() < 0.3:
+            name = "s%d" % len(values)
+            values[name] = [X.c_exp(rng) for _ in range(npoints)]
+            it["sym"] = name
+    return items, values
+
+
+def _sym_op(it, qubits):
+    import sympy
+
+    spec = P.spec_by_name(it["spec"])
+    p = list(it["p"])
+    if it.get("sym"):
+        p[1 if it["spec"] == "PhasedXPow" else 0] = sympy.Symbol(it["sym"])
+    op = spec.make(tuple(p)).on(*[qubits[w] for w in it["w"]])
+    return op.with_tags(*it["tags"]) if it.get("tags") else op
+
+
+def _sym_ref(items, values, i, dims):
+    steps = []
+    for it in items:
+        spec = P.spec_by_name(it["spec"])
+        p = list(it["p"])
+        if it.get("sym"):
+            p[1 if it["spec"] == "PhasedXPow" else 0] = values[it["sym"]][i]
+        steps.append(I.U(spec.ref(tuple(p)), it["w"]))
+    return I.unitary_of(steps, dims)
+
+
+def sec_sweep(ctx, rng, case_no):
+    import cirq
+    import sympy
+
+    n = int(rng.integers(2, 5))
+    N = int(rng.integers(1, 4))
+    items, values = _sym_program(rng, n, int(rng.integers(4, 16)), N)
+    if not values:
+        raise Reject("generator: no symbol drawn")
+    X.add_tags(rng, items, p_ignore=0.1, p_other=0.05)
+    dims = (2,) * n
+    qubits = P.make_qubits(rng, dims)
+    moments, cur, used = [], [], set()
+    for it in items:
+        if set(it["w"]) & used:
+            moments.append(cirq.Moment(cur))
+            cur, used = [], set()
+        cur.append(_sym_op(it, qubits))
+        used |= set(it["w"])
+    moments.append(cirq.Moment(cur))
+    circ = cirq.Circuit(moments) if rng.random() < 0.5 else cirq.FrozenCircuit(moments)
+    sweep = cirq.Zip(*[cirq.Points(k, v) for k, v in values.items()])
+    refs = [_sym_ref(items, values, i, dims) for i in range(N)]
+    case = {"items": items, "n": n, "dims": dims, "qubits": qubits, "layout": "greedy", "kind": "unitary", "circuit": circ, "cache": {}, "U": refs[0]}
+    base = dict(_wit(case), symbols={k: v for k, v in values.items()}, symbolic_steps=[(j, it["sym"]) for j, it in enumerate(items) if it.get("sym")])
+    # harness sanity: the input, resolved, means what the program means
+    for i, r in enumerate(sweep):
+        judge_unitary(ctx, case, "input", cirq.resolve_parameters(circ, r), 1e-7, base, monitor="harness-sanity",
+                      mech="C06:harness:input-circuit-vs-program", want=refs[i])
+    nops = len(items)
+    reg = _S["reg"]
+    # merge_single_qubit_gates_to_phxz_symbolized
+    ent = reg["merge_single_qubit_gates_to_phxz_symbolized"]
+    f = cirq.transformers.merge_single_qubit_gates_to_phxz_symbolized
+    for label, kw in (("default", {}), ("atol=1e-7", {"atol": 1e-7})):
+        variant = ["none", "plain", "tags", "deep"][int(rng.integers(4))]
+        if "tags" in variant and any(it.get("sym") and IG in it.get("tags", ()) for it in items):
+            variant = "plain"  # an ignored operation that is itself to be symbolized: no documented meaning (raises ValueError)
+        wit = dict(base, transformer=ent.name, optionset=label)
+        fn = lambda c, t, **k: f(c, sweep=sweep, **k) if t is None else f(c, context=t, sweep=sweep, **k)  # noqa
+        res = call(ctx, ent, circ, variant, kw, wit, fn=fn)
+        if res is None:
+            continue
+        out, new_sweep = res
+        w2 = dict(wit, context=variant, output_sweep=repr(new_sweep)[:1500])
+        if not ctx.check(len(new_sweep) == N, "sweep-unitary-preserved", "C06:symbolized-sweep-length", "returned sweep has %d points, input %d" % (len(new_sweep), N), **w2):
+            continue
+        for i, r in enumerate(new_sweep):
+            rc = cirq.resolve_parameters(out, r)
+            if cirq.is_parameterized(rc):
+                ctx.check(False, "sweep-unitary-preserved", "C06:symbolized-unresolved-symbols", "symbols left after resolving with the returned sweep: %r" % sorted(cirq.parameter_names(rc)), **w2)
+                break
+            judge_unitary(ctx, case, ent.name, rc, ent.tol(kw, nops), dict(w2, sweep_index=i), monitor="sweep-unitary-preserved",
+                          mech="C06:sweep-unitary-changed:" + ent.name, want=refs[i])
+    # passes documenting symbolic support: eject_parameterized
+    for name in ("eject_z", "eject_phased_paulis"):
+        ent = reg[name]
+        for ep in (True, False):
+            kw = {"eject_parameterized": ep}
+            variant = ["none", "plain", "tags"][int(rng.integers(3))]
+            wit = dict(base, transformer=name, optionset="eject_parameterized=%s" % ep)
+            out = call(ctx, ent, circ, variant, kw, wit)
+            if out is None:
+                continue
+            for i, r in enumerate(sweep):
+                rc = cirq.resolve_parameters(out, r)
+                if cirq.is_parameterized(rc):
+                    ctx.check(False, "sweep-unitary-preserved", "C06:new-symbols:" + name, "%r" % sorted(cirq.parameter_names(rc)), **wit)
+                    break
+                judge_unitary(ctx, case, name, rc, ent.tol(kw, nops), dict(wit, context=variant, sweep_index=i), monitor="sweep-unitary-preserved",
+                              mech="C06:sweep-unitary-changed:" + name, want=refs[i])
+    # symbolize_single_qubit_gates_by_indexed_tags: structural contract
+    ent = reg["symbolize_single_qubit_gates_by_indexed_tags"]
+    prefix = ["TO-PHXZ", "phxz", "c06"][int(rng.integers(3))]
+    ops_in = list(circ.all_operations())
+    oneq = [j for j, op in enumerate(ops_in) if len(op.qubits) == 1]
+    chosen = {int(j): k for k, j in enumerate(rng.permutation(oneq)[: int(rng.integers(1, 4))])} if oneq else {}
+    double = rng.random() < 0.1 and chosen
+    j = 0
+    tagged_moments = []
+    for m in circ.moments:
+        new = []
+        for op in m.operations:
+            if j in chosen:
+                op = op.with_tags("%s_%d" % (prefix, chosen[j]), *(["%s_%d" % (prefix, 99)] if double else []))
+            new.append(op)
+            j += 1
+        tagged_moments.append(cirq.Moment(new))
+    tcirc = cirq.Circuit(tagged_moments)
+    variant = ["none", "plain", "tags", "deep"][int(rng.integers(4))]
+    kw = {} if prefix == "TO-PHXZ" and rng.random() < 0.5 else {"symbolize_tag": cirq.transformers.SymbolizeTag(prefix=prefix)}
+    wit = dict(base, transformer=ent.name, prefix=prefix, tagged_positions=sorted(chosen), circuit=repr(tcirc)[:3000])
+    out = call(ctx, ent, tcirc, variant, kw, wit, fn=_std(cirq.transformers.symbolize_single_qubit_gates_by_indexed_tags))
+    if out is not None:
+        a, b = list(tcirc.all_operations()), list(out.all_operations())
+        ok = len(a) == len(b) and len(out) == len(tcirc)
+        why = "operation count / depth changed"
+        for idx, (x, y) in enumerate(zip(a, b)):
+            if not ok:
+                break
+            k = chosen.get(idx)
+            if k is None or ("tags" in variant and IG in x.tags):
+                ok, why = (x == y and tuple(x.tags) == tuple(y.tags)), "untagged-for-symbolizing operation %d changed: %r -> %r" % (idx, x, y)
+            else:
+                want = cirq.PhasedXZGate(x_exponent=sympy.Symbol("x%d" % k), z_exponent=sympy.Symbol("z%d" % k), axis_phase_exponent=sympy.Symbol("a%d" % k))
+                ok = y.gate == want and y.qubits == x.qubits and set(y.tags) == set(x.tags) - {"%s_%d" % (prefix, k)}
+                why = "operation %d tagged %s_%d became %r" % (idx, prefix, k, y)
+        ctx.check(ok, "structure-as-documented", "C06:symbolize-by-tags-structure", why, output=repr(out)[:2500], **wit)
+    ctx.distinct(tuple(X.describe(items)) + tuple(sorted(values)), nontrivial=True)
+    ctx.sample({"n": n, "N": N, "program": X.describe(items)[:10], "symbols": sorted(values)})
+
+
+# ------------------------------------------------------------------ section: random pipelines of 2-3 transformers
+def cirq_has_unitary(op):
+    import cirq
+
+    return cirq.has_unitary(op)
+
+
+def _satisfies_rel(case, out, rel):
+    try:
+        got, total, over = _explored(case, out, "dist")
+        if over or L.tv_distance(got, case["dist"]) > 1e-6:
+            return False
+        if rel == "D":
+            return True
+        rho, over2 = _explored(case, out, "rho")
+        return not over2 and rho is not None and L.maxdiff(rho, case["rho"]) <= TOL
+    except ValueError:
+        return False
+
+
+def sec_pipeline(ctx, rng, case_no):
+    measured = rng.random() < 0.3
+    if measured:
+        n = int(rng.integers(2, 4))
+        items = X.gen_measured(rng, n, int(rng.integers(4, 12)), max_digits=4, allow_conf=False)
+    else:
+        n = int(rng.integers(2, 6))
+        items = X.gen_unitary(rng, n, int(rng.integers(4, 22)))
+    X.add_tags(rng, items)
+    case = make_case(rng, items, n, "measured" if measured else "unitary")
+    if not input_sanity(ctx, case):
+        return
+    rels = ("U", "D") if measured else ("U",)
+    ents = [e for e in _entries(case["kind"], rels) if e.name not in ("defer_measurements",)]
+    for trial in range(3 if not measured else 2):
+        k = int(rng.integers(2, 4))
+        stages = [ents[int(i)] for i in rng.choice(len(ents), size=k, replace=False)]
+        variant = ["none", "plain", "tags"][int(rng.integers(3))]
+        cur = case["circuit"]
+        names, tol, weakest = [], 0.0, "U"
+        nops = len(items)
+        ok = True
+        trail = []
+        for ent in stages:
+            label, kw = ent.kwsets[int(rng.integers(len(ent.kwsets)))]
+            v = variant if (ent.tags or "tags" not in variant) else "plain"
+            wit = _wit(case, transformer=ent.name, optionset=label, pipeline=names + [ent.name], stage_input=repr(cur)[:2500])
+            res = call(ctx, ent, cur, v, kw, wit)
+            if res is None:
+                ok = False
+                break
+            names.append("%s[%s]" % (ent.name, label))
+            tol += ent.tol(kw, nops)
+            weakest = "D" if ent.rel == "D" else weakest
+            cur = res
+            trail.append((ent, kw, res, dict(wit, context=v, options=_optdesc(kw))))
+        if not ok:
+            continue
+        # the final circuit must satisfy the weakest relation of the stages; when it does not, the first stage whose own
+        # output breaks the relation (all earlier outputs still mean what the program means) is reported by its own key
+        if not measured:
+            final_ok = L.phase_diff(LW.lower_unitary_embed(cur, case["qubits"]), case["U"]) <= tol if all(
+                cirq_has_unitary(op) for op in cur.all_operations()) else False
+        else:
+            final_ok = _satisfies_rel(case, cur, weakest)
+        blamed = False
+        if not final_ok:
+            seen_d = False
+            for ent, kw, res, w in trail:
+                seen_d = seen_d or ent.rel == "D"
+                if not measured:
+                    r = judge_unitary(ctx, case, ent.name, res, ent.tol(kw, nops) * len(trail), w)
+                elif seen_d:
+                    r = judge_distribution(ctx, case, ent.name, res, w)
+                else:
+                    r = judge_distribution(ctx, case, ent.name, res, w) and judge_state(ctx, case, ent.name, res, w)
+                if r is False:
+                    blamed = True
+                    break
+        ctx.check(final_ok or blamed, "pipeline-preserved", "C06:pipeline:" + "+".join(sorted(e.name for e in stages)),
+                  "the pipeline's output breaks the relation although every stage output satisfies it", output=repr(cur)[:3000],
+                  **_wit(case, pipeline=names, context=variant))
+    ctx.distinct(tuple(X.describe(items)), nontrivial=True)
+    ctx.sample({"n": n, "measured": bool(measured), "program": X.describe(items)[:8], "last_pipeline": names})
+
+
+
+# ------------------------------------------------------------------ section: special contracts and documented rejections
+def _clifford_group():
+    h = np.array([[1, 1], [1, -1]], dtype=complex) / math.sqrt(2)
+    sg = np.diag([1, 1j]).astype(complex)
+    group = [np.eye(2, dtype=complex)]
+    frontier = list(group)
+    while frontier:
+        new = []
+        for g in frontier:
+            for m in (h, sg):
+                c = m @ g
+                if not any(L.phase_equal(c, x, 1e-9) for x in group):
+                    group.append(c)
+                    new.append(c)
+        frontier = new
+    return group
+
+
+def _randomized_measurements(ctx, rng):
+    import cirq
+
+    n = int(rng.integers(1, 5))
+    items = X.gen_unitary(rng, n, int(rng.integers(1, 8)))
+    case = make_case(rng, items, n, "unitary")
+    circ = case["circuit"]
+    present = sorted(circ.all_qubits())
+    if not present:
+        raise Reject("generator: circuit without qubits")
+    sub = None if rng.random() < 0.4 else sorted(int(x) for x in rng.choice(len(present), size=int(rng.integers(1, len(present) + 1)), replace=False))
+    ens = ["pauli", "clifford", "cue", "PAULI"][int(rng.integers(4))]
+    seed = int(rng.integers(1 << 30))
+    ent = _S["reg"]["RandomizedMeasurements"]
+    wit = _wit(case, transformer=ent.name, subsystem=sub, unitary_ensemble=ens, rng_seed=seed)
+    variant = ["none", "plain"][int(rng.integers(2))]
+    fn = lambda c, t: cirq.transformers.RandomizedMeasurements(sub)(c, unitary_ensemble=ens, rng=np.random.default_rng(seed), **({} if t is None else {"context": t}))  # noqa
+    out = call(ctx, ent, circ, variant, {}, wit, fn=fn)
+    if out is None:
+        return
+    qs = present if sub is None else [present[k] for k in sub]
+    ok = len(out) == len(circ) + 2 and list(out.moments[: len(circ)]) == list(circ.moments)
+    why = "input is not an unchanged prefix followed by exactly two moments"
+    if ok:
+        rot, meas = out.moments[-2], out.moments[-1]
+        if "_C" not in _S:
+            _S["_C"] = _clifford_group()
+        from vf.refmodel import gates as G
+        allowed = {"pauli": [G.ry(-math.pi / 2), G.rx(math.pi / 2), np.eye(2)], "clifford": _S["_C"], "cue": None}[ens.lower()]
+        ok = set(rot.qubits) <= set(qs) and all(len(op.qubits) == 1 for op in rot.operations)
+        why = "rotation layer acts outside the subsystem"
+        for op in rot.operations:
+            u = cirq.unitary(op, None)
+            if u is None or not L.is_unitary(u, 1e-7) or (allowed is not None and not any(L.phase_equal(u, a, 1e-7) for a in allowed)):
+                ok, why = False, "rotation %r is not a member of the %s ensemble" % (op, ens)
+        mops = list(meas.operations)
+        if ok:
+            g = mops[0].gate if len(mops) == 1 else None
+            ok = (isinstance(g, cirq.MeasurementGate) and g.key == "m" and list(mops[0].qubits) == list(qs) and not any(g.full_invert_mask())
+                  and not g.confusion_map)
+            why = "last moment is not one plain measurement 'm' of the subsystem in qubit order"
+    ctx.check(ok, "structure-as-documented", "C06:randomized-measurements-structure", why, output=repr(out)[-2500:], **wit)
+
+
+def _clean_borrow(ctx, rng):
+    """map_clean_and_borrowable_qubits: system unitary unchanged when the placeholder qubits are used properly."""
+    import cirq
+
+    ns = int(rng.integers(2, 4))
+    sysq = P.make_qubits(rng, (2,) * ns, kind=["line", "named", "grid"][int(rng.integers(3))])
+    steps = []   # (spec name, params, wires) over wires: 0..ns-1 system, then placeholders
+    place = []   # placeholder qubits in wire order
+    def U(k=None):
+        for _ in range(int(rng.integers(1, 4)) if k is None else k):
+            st = X.gen_ustep(rng, ns, arity_w=(0.0, 0.6, 0.4, 0.0))
+            steps.append((st["spec"], st["p"], st["w"]))
+    U()
+    for blk in range(int(rng.integers(1, 4))):
+        w = ns + len(place)
+        a, b = (int(x) for x in rng.choice(ns, size=2, replace=False))
+        if rng.random() < 0.55:
+            place.append(cirq.ops.CleanQubit(len(place), prefix="c06clean"))
+            # compute a -> anc, use anc as control on b, uncompute
+            steps.append(("CNOT", (), (a, w)))
+            steps.append((["CZ", "CNOT"][int(rng.integers(2))], (), (w, b)))
+            if rng.random() < 0.5:
+                st = X.gen_ustep(rng, ns, arity_w=(0.0, 1.0, 0.0, 0.0))
+                if st["w"][0] not in (a,):
+                    steps.append((st["spec"], st["p"], st["w"]))
+            steps.append(("CNOT", (), (a, w)))
+        else:
+            place.append(cirq.ops.BorrowableQubit(len(place), prefix="c06borrow"))
+            # toggle detection: the borrowed qubit returns to whatever state it had
+            steps += [("CNOT", (), (a, w)), ("CNOT", (), (w, b)), ("CNOT", (), (a, w)), ("CNOT", (), (w, b))]
+        if rng.random() < 0.6:
+            U(int(rng.integers(1, 3)))
+    nt = ns + len(place)
+    dims = (2,) * nt
+    ref = [I.U(P.spec_by_name(nm).ref(p), w) for nm, p, w in steps]
+    V = I.unitary_of(ref, dims)
+    # the system part (placeholders start in |0>): block of V with placeholder digits 0 -> 0
+    t = V.reshape((2,) * (2 * nt))
+    idx = tuple([slice(None)] * ns + [0] * (nt - ns) + [slice(None)] * ns + [0] * (nt - ns))
+    Vs = t[idx].reshape(2 ** ns, 2 ** ns)
+    if not L.is_unitary(Vs, 1e-7):
+        raise Reject("generator: placeholder use not clean")
+    allq = list(sysq) + place
+    ops = [P.spec_by_name(nm).make(p).on(*[allq[x] for x in w]) for nm, p, w in steps]
+    layout = rng.random() < 0.5
+    circ = cirq.Circuit(ops) if layout else cirq.Circuit([cirq.Moment([o]) for o in ops])
+    if rng.random() < 0.5:
+        circ = circ.freeze()
+    ent = _S["reg"]["map_clean_and_borrowable_qubits"]
+    case = {"items": [{"t": "U", "spec": nm, "p": p, "w": w} for nm, p, w in steps], "n": nt, "qubits": allq, "circuit": circ}
+    wit = _wit(case, transformer=ent.name, system_wires=ns)
+    use_qm = rng.random() < 0.5
+    fn = lambda c, t_: cirq.map_clean_and_borrowable_qubits(c, **({"qm": cirq.GreedyQubitManager(prefix="c06anc", maximize_reuse=bool(rng.integers(2)))} if use_qm else {}))  # noqa
+    out = call(ctx, ent, circ, "none", {}, wit, fn=fn)
+    if out is None:
+        return
+    left = [q for q in out.all_qubits() if isinstance(q, (cirq.ops.CleanQubit, cirq.ops.BorrowableQubit))]
+    ctx.check(not left, "structure-as-documented", "C06:placeholder-qubits-left", "placeholder qubits remain: %r" % left, output=repr(out)[:2500], **wit)
+    extra = sorted(set(out.all_qubits()) - set(sysq))
+    if left or len(extra) > 4:
+        return
+    order = list(sysq) + extra
+    try:
+        W = LW.lower_unitary_embed(out, order)
+    except LW.LowerError as e:
+        ctx.check(False, "unitary-preserved", "C06:output-not-unitary:" + ent.name, str(e), **wit)
+        return
+    ne = len(extra)
+    tw = W.reshape((2,) * (2 * (ns + ne)))
+    idx = tuple([slice(None)] * ns + [0] * ne + [slice(None)] * ns + [0] * ne)
+    Ws = tw[idx].reshape(2 ** ns, 2 ** ns)
+    d = L.phase_diff(Ws, Vs)
+    ctx.check(d <= TOL and L.is_unitary(Ws, 1e-6), "unitary-preserved", "C06:unitary-changed:" + ent.name,
+              "action on the system qubits (allocated qubits |0> -> |0>) differs from the input's by %.3g" % d, output=repr(out)[:3000], **wit)
+    ctx.distinct(("cb", tuple(repr(s_) for s_ in steps)), nontrivial=True)
+
+
+def _rejections(ctx, rng):
+    """documented errors for unsupported arguments"""
+    import cirq
+    import cirq.transformers.gauge_compiling as GC
+
+    q = cirq.LineQubit.range(2)
+    c = cirq.Circuit(cirq.H(q[0]), cirq.CZ(*q), cirq.X(q[1]).with_tags("TO-PHXZ_0", "TO-PHXZ_1"))
+    reg = _S["reg"]
+    tests = [
+        ("merge_k_qubit_unitaries", lambda: cirq.merge_k_qubit_unitaries(c, k=0), ValueError, r"k should be greater"),
+        ("index_tags", lambda: cirq.index_tags(c, context=cirq.TransformerContext(tags_to_ignore=("a",)), target_tags={"b"}), ValueError, r"doesn't support tags_to_ignore"),
+        ("remove_tags", lambda: cirq.remove_tags(c, context=cirq.TransformerContext(tags_to_ignore=("a",))), ValueError, r"doesn't support tags_to_ignore"),
+        ("add_dynamical_decoupling", lambda: cirq.add_dynamical_decoupling(c, schema="NOPE"), ValueError, r"Invalid schema name"),
+        ("add_dynamical_decoupling", lambda: cirq.add_dynamical_decoupling(c, schema=(cirq.X, cirq.Y)), ValueError, r"sequence product equals"),
+        ("add_dynamical_decoupling", lambda: cirq.add_dynamical_decoupling(c, schema=(cirq.H, cirq.H)), ValueError, r"essentially\s+Pauli"),
+        ("add_dynamical_decoupling", lambda: cirq.add_dynamical_decoupling(c, schema=(cirq.X,)), ValueError, r"more than one"),
+        ("IdleMomentsGauge", lambda: GC.IdleMomentsGauge(1, gauges="nope"), ValueError, r"not a valid gauge name"),
+        ("IdleMomentsGauge", lambda: GC.IdleMomentsGauge(0), ValueError, r"."),
+        ("symbolize_single_qubit_gates_by_indexed_tags", lambda: cirq.symbolize_single_qubit_gates_by_indexed_tags(c), ValueError, r"Multiple tags"),
+        ("drop_terminal_measurements", lambda: cirq.drop_terminal_measurements(cirq.Circuit(cirq.measure(q[0], key="a"), cirq.X(q[0]))), ValueError, r"non-terminal"),
+        ("drop_terminal_measurements", lambda: cirq.drop_terminal_measurements(c, context=cirq.TransformerContext(deep=False)), ValueError, r"deep=True"),
+        ("dephase_measurements", lambda: cirq.dephase_measurements(cirq.Circuit(cirq.measure(q[0], key="a"), cirq.X(q[1]).with_classical_controls("a"))), ValueError, r"defer_measurements first"),
+        ("RandomizedMeasurements", lambda: cirq.transformers.RandomizedMeasurements()(c, unitary_ensemble="haar"), ValueError, r"Only pauli, clifford and cue"),
+        ("stratified_circuit", lambda: cirq.stratified_circuit(c, categories=[3]), TypeError, r"Unrecognized classifier type"),
+    ]
+    name, f, exc, pat = tests[int(rng.integers(len(tests)))]
+    try:
+        f()
+    except exc as e:
+        ok = re.search(pat, str(e)) is not None
+        ctx.check(ok, "documented-rejection", "C06:rejection-message:" + name, "message %r does not match %r" % (str(e)[:200], pat))
+        ctx.reject(name + ":" + pat[:30])
+        return
+    ctx.check(False, "documented-rejection", "C06:rejection-missing:" + name, "the documented %s was not raised" % exc.__name__)
+
+
+def sec_special(ctx, rng, case_no):
+    k = int(rng.integers(5))
+    if k in (0, 1):
+        _randomized_measurements(ctx, rng)
+        ctx.distinct(("rm", case_no), nontrivial=True)
+    elif k in (2, 3):
+        _clean_borrow(ctx, rng)
+    else:
+        _rejections(ctx, rng)
+
+
 SECTIONS = [
     ("unitary", sec_unitary, 400, 12000, 3.0),
     ("measured", sec_measured, 300, 8000, 3.0),
     ("deep", sec_deep, 300, 8000, 2.0),
     ("gauge", sec_gauge, 300, 8000, 1.5),
     ("primitives", sec_primitives, 300, 8000, 2.5),
+    ("sweep", sec_sweep, 300, 8000, 1.0),
+    ("pipeline", sec_pipeline, 300, 8000, 1.5),
+    ("special", sec_special, 600, 12000, 0.7),
 ]
